@@ -18,6 +18,7 @@ import (
 	"github.com/ethereum/go-ethereum/p2p/enr"
 	"github.com/ethereum/go-ethereum/rlp"
 	cache "github.com/go-pkgz/expirable-cache/v3"
+	"github.com/holiman/uint256"
 	"github.com/zen-eth/shisui/portalwire"
 	"github.com/zen-eth/shisui/storage"
 	spebble "github.com/zen-eth/shisui/storage/pebble"
@@ -66,6 +67,7 @@ type nodeCfg struct {
 	boot         []*enode.Node
 	networks     []string
 	noQueueDrain bool
+	wrapStore    func(storage.ContentStorage) storage.ContentStorage
 }
 
 // baseNode is the part shared by full nodes and puppets: socket, discv5, uTP.
@@ -183,6 +185,9 @@ func (b *baseNode) newPlainProto(id portalwire.ProtocolId) *proto {
 		}
 		pr.store = st
 	}
+	if b.cfg.wrapStore != nil {
+		pr.store = b.cfg.wrapStore(pr.store)
+	}
 	qc := b.cfg.queueCap
 	if qc == 0 {
 		qc = 50
@@ -200,3 +205,29 @@ func (b *baseNode) newPlainProto(id portalwire.ProtocolId) *proto {
 	}
 	return pr
 }
+
+// decoStore is a harness decorator at the ContentStorage seam: it can override the
+// advertised radius and records every call.
+type decoStore struct {
+	inner  storage.ContentStorage
+	radius *uint256.Int // nil: inner's
+	puts   int
+	gets   int
+	onPut  func(key, id, val []byte)
+}
+
+func (d *decoStore) Get(k, id []byte) ([]byte, error) { d.gets++; return d.inner.Get(k, id) }
+func (d *decoStore) Put(k, id, v []byte) error {
+	d.puts++
+	if d.onPut != nil {
+		d.onPut(k, id, v)
+	}
+	return d.inner.Put(k, id, v)
+}
+func (d *decoStore) Radius() *uint256.Int {
+	if d.radius != nil {
+		return d.radius
+	}
+	return d.inner.Radius()
+}
+func (d *decoStore) Close() error { return d.inner.Close() }
